@@ -128,6 +128,12 @@ pub fn amount(r: &mut Rng) -> u64 {
 fn nonces(r: &mut Rng, n: usize) -> String {
     (0..n).map(|_| hs(&rand_scalar(r))).collect::<Vec<_>>().join(" ")
 }
+/// every way of zeroing a non-empty subset of `n` nonces (the others random); no a-priori verdict:
+/// which masking commitments become the identity — and whether the policy names them — is for the
+/// model to decide and the implementation to match
+fn nonce_subsets(r: &mut Rng, n: usize) -> Vec<String> {
+    (1u32..(1 << n)).map(|m| (0..n).map(|i| if m >> i & 1 == 1 { ZERO_PT.to_string() } else { hs(&rand_nonzero(r)) }).collect::<Vec<_>>().join(" ")).collect()
+}
 fn zeros(n: usize) -> String {
     vec![ZERO_PT; n].join(" ")
 }
@@ -303,6 +309,7 @@ fn c01_zero(o: &mut Out, r: &mut Rng, reps: usize) {
         }
         // zero nonce: Y_P = identity must be refused although the equations hold
         o.op("zero.zero-nonce", &format!("mprove R zero {} {} {}", st.wit(), ZERO_PT, zeros(2)));
+        for ns in nonce_subsets(r, 1) { o.op("zero.zero-nonce-subset", &format!("mprove - zero {} {} {}", st.wit(), ns, zeros(2))); }
         // identity statement points with the best forgery
         let k = kp(r);
         o.op("zero.id-ct", &format!("mprove R zero {} {} {} {} {} {}", hs(&k.s), hp(&k.p), ZERO_PT, ZERO_PT, nonces(r, 1), zeros(2)));
@@ -358,6 +365,7 @@ fn c01_ctct(o: &mut Out, r: &mut Rng, reps: usize) {
             o.op("ctct.residual", &format!("mprove R ctct {} {} {}", st.mwit(&x), nonces(r, 3), offsets(&v, &rp)));
         }
         o.op("ctct.zero-nonce", &format!("mprove R ctct {} {} {} {} {}", st.mwit(&x), ZERO_PT, ZERO_PT, ZERO_PT, zeros(4)));
+        for ns in nonce_subsets(r, 3) { o.op("ctct.zero-nonce-subset", &format!("mprove - ctct {} {} {}", st.mwit(&x), ns, zeros(4))); }
         // second ciphertext = identity is allowed (x = 0, r = 0)
         let mut z = ctct_st(r, 0, 0);
         z.c2 = RistrettoPoint::identity();
@@ -399,6 +407,7 @@ fn c01_ctcmt(o: &mut Out, r: &mut Rng, reps: usize) {
             o.op("ctcmt.residual", &format!("mprove R ctcmt {} {} {}", st.mwit(&x), nonces(r, 3), offsets(&v, &rp)));
         }
         o.op("ctcmt.zero-nonce", &format!("mprove R ctcmt {} {} {} {} {}", st.mwit(&x), ZERO_PT, ZERO_PT, ZERO_PT, zeros(3)));
+        for ns in nonce_subsets(r, 3) { o.op("ctcmt.zero-nonce-subset", &format!("mprove - ctcmt {} {} {}", st.mwit(&x), ns, zeros(3))); }
         let mut z = ctcmt_st(r, 0, 0);
         z.cm = RistrettoPoint::identity();
         z.r = Scalar::ZERO;
@@ -545,6 +554,39 @@ fn val_family(o: &mut Out, r: &mut Rng, n: usize, batched: bool) {
     o.op(&format!("{}.zero-nonce", name), &format!("mprove R {} {} {} {} {}", name, mw, ZERO_PT, ZERO_PT, zeros(k)));
     // y_r = 0 only: Y_1.. are the identity -> refused (non-auditor masking commitments)
     o.op(&format!("{}.zero-yr", name), &format!("mprove R {} {} {} {} {}", name, mw, ZERO_PT, hs(&rand_nonzero(r)), zeros(k)));
+    for ns in nonce_subsets(r, 2) { o.op(&format!("{}.zero-nonce-subset", name), &format!("mprove - {} {} {} {}", name, mw, ns, zeros(k))); }
+    // identity commitment with a consistent witness (amount 0, opening 0: the whole grouped ciphertext is
+    // the identity and every equation holds): refused by the policy; batched: lo alone, hi alone, both
+    let zero = hs(&Scalar::ZERO);
+    let variants: Vec<Vec<usize>> = if batched { vec![vec![0], vec![1], vec![0, 1]] } else { vec![vec![0]] };
+    for v in variants {
+        let mut t = toks.clone();
+        for &half in &v {
+            if batched {
+                t[half] = zero.clone();       // x_lo / x_hi
+                t[2 + half] = zero.clone();   // r_lo / r_hi
+            } else {
+                t[0] = zero.clone();
+                t[1] = zero.clone();
+            }
+            for i in 0..(n + 1) { t[first_pt + half * (n + 1) + i] = ZERO_PT.to_string(); }
+        }
+        o.op(&format!("{}.id-commitment", name), &format!("mprove R {} {} {} {}", name, t.join(" "), nonces(r, 2), zeros(k)));
+    }
+    // zero opening, non-zero amount: every handle is the identity, the commitment is not (no a-priori verdict)
+    {
+        let mut t = toks.clone();
+        let halves = if batched { 2 } else { 1 };
+        for half in 0..halves {
+            let ri = if batched { 2 + half } else { 1 };
+            let xi = if batched { half } else { 0 };
+            t[ri] = zero.clone();
+            let x = Scalar::from_bytes_mod_order(unhex(&t[xi]).unwrap().try_into().unwrap());
+            t[first_pt + half * (n + 1)] = hp(&(x * G));
+            for i in 0..n { t[first_pt + half * (n + 1) + 1 + i] = ZERO_PT.to_string(); }
+        }
+        o.op(&format!("{}.zero-opening", name), &format!("mprove - {} {} {} {}", name, t.join(" "), nonces(r, 2), zeros(k)));
+    }
 }
 
 pub fn gen_c02(o: &mut Out, tier: &str, seed: u64) {
@@ -622,6 +664,25 @@ pub fn gen_c03(o: &mut Out, tier: &str, seed: u64) {
         z.cm = RistrettoPoint::identity();
         z.rp = Scalar::ZERO;
         o.op("cap.id-percentage", &format!("mprove R cap max {} {} {} {} {} {}", pts(&z), ZERO_PT, ZERO_PT, ZERO_PT, nonces(&mut r, 5), zeros(3)));
+        // each commitment alone the identity, with a consistent witness
+        {
+            // delta commitment alone: delta = 0, r_delta = 0; claimed commits to 0 with a random opening
+            let mut z = cap_below(&mut r, 2, 5, 0);
+            z.cd = RistrettoPoint::identity();
+            z.rd = Scalar::ZERO;
+            o.op("cap.id-delta", &format!("mprove R cap eq {} {} {} {} {} {}", pts(&z), ZERO_PT, ZERO_PT, hs(&z.rc), nonces(&mut r, 5), zeros(3)));
+            let mut z = cap_below(&mut r, 2, 5, 0);
+            z.cc = RistrettoPoint::identity();
+            z.rc = Scalar::ZERO;
+            o.op("cap.id-claimed", &format!("mprove R cap eq {} {} {} {} {} {}", pts(&z), ZERO_PT, hs(&z.rd), ZERO_PT, nonces(&mut r, 5), zeros(3)));
+        }
+        // every non-empty subset of the five nonces zero, in either branch (no a-priori verdict)
+        for ns in nonce_subsets(&mut r, 5) {
+            o.op("cap.zero-nonce-subset", &format!("mprove - cap eq {} {} {} {} {} {}", pts(&st), hs(&Scalar::from(st.delta)), hs(&st.rd), hs(&st.rc), ns, zeros(3)));
+        }
+        for ns in nonce_subsets(&mut r, 5) {
+            o.op("cap.zero-nonce-subset", &format!("mprove - cap max {} {} {} {} {} {}", pts(&st2), hs(&st2.rp), ZERO_PT, ZERO_PT, ns, zeros(3)));
+        }
         // zero nonces
         o.op("cap.zero-nonce", &format!("mprove R cap eq {} {} {} {} {} {} {} {} {} {}", pts(&st), hs(&Scalar::from(st.delta)), hs(&st.rd), hs(&st.rc), hs(&rand_scalar(&mut r)), hs(&rand_scalar(&mut r)), ZERO_PT, ZERO_PT, ZERO_PT, zeros(3)));
         // challenge split that does not add up: perturb c_max_proof (bytes 168..200) of an accepted proof
